@@ -1,3 +1,4 @@
+import Rpcx.Model.Atomic
 import Rpcx.Lemmas.MuxInv
 import Rpcx.Gen.Preds
 /-
@@ -177,5 +178,17 @@ theorem seqs_distinct (oneways : List Bool) (evs : List Ev) :
 
 /-- the tie: the classification expression was translated from the current source this run -/
 theorem tie_preds : Gen.predsTieOk = true := by decide
+
+/-! ### the model's atomic steps are the code's critical sections (regenerated facts) -/
+
+/-- the critical-section facts were extracted from the current source this run -/
+theorem tie_atomic : Gen.atomicTieOk = true := by decide
+
+/-- registration is one critical section of `send`: the shutdown/closing test, the sequence
+    number increment and the insertion into the pending table happen under one acquisition of the
+    client mutex (so sequence numbers are unique per registered call and a call is never
+    registered after the table was drained) -/
+theorem tie_register_atomic :
+    Atomic.sameRegion .clientSend .clientMutex [.testShutdown, .testClosing, .setSeq, .putPending] = true := by decide
 
 end Rpcx.Props.C03
